@@ -1,4 +1,4 @@
-// Replay of D4 (property C12; also C07): the rating slot of the score vector was `hit.rating as isize`
+// Replay of D4 (property C12): the rating slot of the score vector was `hit.rating as isize`
 // (search/score.rs score_rating_up).  A rating above isize::MAX wraps to a negative score, so the final ordering of
 // Store::search puts the BEST-rated record last for an empty query ("ratings never increase down the list" fails), and
 // in a non-empty query such a record loses every rating tie-break.  On wasm32 (the deployed target) the threshold is 2^31.
@@ -29,6 +29,7 @@ fn d4_tie_break_by_rating_above_isize_max() {
     let mut store = Store::new();
     store.add(Record::new(1, "red mailbox", 9, &store.lang));
     store.add(Record::new(2, "tan mailbox", (isize::MAX as usize) + 1, &store.lang));
-    // identical match quality and title shape: the higher rating comes first
+    // identical match quality and title shape: the higher rating comes first (illustration only: C08 states this rule for
+    // ratings below 2^31)
     assert_eq!(ids(&store, "mailbox"), vec![2, 1]);
 }
